@@ -32,9 +32,12 @@ template <class RB> static void void_ring(const Program& P, RB& rb) {
   xev("cap", (long)rb.capacity());
   auto doop = [&](const Op& o) {
     if (o.name == "pushv") { long id = o.arg(0); size_t sz = (size_t)o.arg(1); std::vector<unsigned char> d(sz); for (size_t i = 0; i < sz; ++i) d[i] = pat(id, i); inv("pushv", id, (long)sz); bool r = rb.push_back(d.data(), sz); ret(r); }
+    else if (o.name == "pushv2") {   // reserve with back( size ), fill after a scheduling point, publish with push_back(): the consumer must not see the record before push_back()
+      long id = o.arg(0); size_t sz = (size_t)o.arg(1); inv("pushv", id, (long)sz); unsigned char* b = (unsigned char*)rb.back(sz);
+      if (!b) { ret(false); return; } sched_yield(); for (size_t i = 0; i < sz; ++i) b[i] = pat(id, i); sched_yield(); rb.push_back(); ret(true); }
     else if (o.name == "popv") { inv("popv"); auto f = rb.front(); if (!f.first) { ret(0); return; } size_t sz = f.second; unsigned char* b = (unsigned char*)f.first; long id = -1;
       for (long cand = 1; cand < 64 && id < 0; ++cand) { bool ok = true; for (size_t i = 0; i < sz; ++i) if (b[i] != pat(cand, i)) { ok = false; break; } if (ok) id = cand; }
-      bool r = rb.pop_front(); ret(r ? 1 : 0, id < 0 ? -1 : id * 1000 + (long)sz); }
+      bool r = rb.pop_front(); ret(1, !r ? -2 : id < 0 ? -1 : id * 1000 + (long)sz); }   // front() returned a record: it must be a pushed one (v=-1: unknown bytes, -2: pop_front() then failed)
     else if (o.name == "drainv") { for (;;) { inv("popv"); auto f = rb.front(); if (!f.first) { ret(0); break; } size_t sz = f.second; unsigned char* b = (unsigned char*)f.first; long id = -1;
       for (long cand = 1; cand < 64 && id < 0; ++cand) { bool ok = true; for (size_t i = 0; i < sz; ++i) if (b[i] != pat(cand, i)) { ok = false; break; } if (ok) id = cand; }
       rb.pop_front(); ret(1, id < 0 ? -1 : id * 1000 + (long)sz); } } };
